@@ -29,6 +29,27 @@ type openPayload struct {
 	Stanza    string   `xml:"stanza,attr,omitempty"`
 }
 
+// ownAttrs returns a copy of start that has the element's own attributes
+// only: encoding/xml matches an attribute tag without a namespace against the
+// local name alone (the last match wins), so x:sid from a foreign namespace
+// would be taken for the session id.
+func ownAttrs(start xml.StartElement) xml.StartElement {
+	own := xml.StartElement{Name: start.Name, Attr: make([]xml.Attr, 0, len(start.Attr))}
+	for _, a := range start.Attr {
+		if a.Name.Space == "" {
+			own.Attr = append(own.Attr, a)
+		}
+	}
+	return own
+}
+
+// UnmarshalXML implements xml.Unmarshaler.
+func (p *openPayload) UnmarshalXML(d *xml.Decoder, start xml.StartElement) error {
+	type plain openPayload
+	own := ownAttrs(start)
+	return d.DecodeElement((*plain)(p), &own)
+}
+
 type openIQ struct {
 	stanza.IQ
 
@@ -69,6 +90,13 @@ type dataPayload struct {
 	Seq     uint16   `xml:"seq,attr"`
 	SID     string   `xml:"sid,attr"`
 	Data    []byte   `xml:",chardata"`
+}
+
+// UnmarshalXML implements xml.Unmarshaler.
+func (p *dataPayload) UnmarshalXML(d *xml.Decoder, start xml.StartElement) error {
+	type plain dataPayload
+	own := ownAttrs(start)
+	return d.DecodeElement((*plain)(p), &own)
 }
 
 func (p dataPayload) TokenReader() xml.TokenReader {
